@@ -166,6 +166,7 @@ def run_type(pane, res, tsi, bri, kind, li, tier):
         if values.kind(v) != 'map':
             data.append(('non_mapping', ABSENT, None, v))
     second_attribute_and_holder(pane, res, variants, tagset, layout, kind, bodyrel, TU, info)
+    embeddings(pane, res, variants, tagset, layout, kind, bodyrel, TU, info)
     seen = set()
     for case, tg, body, d in data:
         k = values.ckey(d)
@@ -312,6 +313,116 @@ def second_attribute_and_holder(pane, res, variants, tagset, layout, kind, bodyr
             core.add_violation(res, {'kind': 'tuple_output_holder_roundtrip', 'layout': lname, 'vkind': kind},
                                f"{lname}/{kind}/{bodyrel} tags={tagset}: a tuple-output dataclass with a field of the tagged union: {got}",
                                dict(info, d='holder'), 5)
+
+
+_TRUE: t.List[t.Any] = []
+
+
+def embeddings(pane, res, variants, tagset, layout, kind, bodyrel, TU, info):
+    """The tagged type in three more places it can legitimately stand: (a) as a LATER member of an untagged union, after members that
+    have nothing to do with it; (b) handed to the file writers / readers as `ty`; (c) next to a condition in the same Annotated.
+    Everywhere the declared tag must select its variant and serialisation must write the layout that is read."""
+    import io as _io
+    from pane.annotations import Tagged, Condition
+    from pane.errors import ConvertError
+    lname = layout[0]
+    if not _TRUE:
+        _TRUE.append(grammar.pin(Condition(lambda v: True, 'anything')))
+    U = t.Union[tuple(v[0] for v in variants)]
+    grammar.fresh_typing()
+    outer = [('after_none', t.Union[None, TU]), ('after_int', t.Union[int, TU]), ('after_list', t.Union[t.List[int], TU]),
+             ('after_str_none', t.Union[str, None, TU])]
+    # (annotations wrap from left to right: Tagged has to stand directly on the union, a condition may follow it - the reverse
+    #  order is refused when the converter is built, which is the documented behaviour for an unsupported spelling)
+    conds = [('tagged_then_condition', t.Annotated[U, Tagged('x', external=layout[1]), _TRUE[0]])]
+    for (V, tag, good, bad) in variants:
+        body = good[-1]
+        d = wrap(layout, 'x', tag, body)
+        if d is None:
+            continue
+        ref = alone(pane, V, body)
+        if ref[0] != 'ok':
+            continue
+        try:
+            ref_data = pane.into_data(ref[1], TU)
+        except Exception:  # noqa
+            continue
+        judge_ser = not (lname == 'internal' and kind != 'pane')
+        # (a variant that is itself an int / str / dict would be claimed by an earlier plain member: only dataclass variants there)
+        for name, T2 in (outer if kind == 'pane' else []) + conds:
+            grammar.pin(T2)
+            res['evals'] += 1
+            res['transitions'] += 2
+            res['validated'] += 1
+            res['nontrivial'].add(f"embed|{name}|{lname}|{kind}")
+            cell = dict(info, d=f"embed:{name}:" + values.expr(d))
+            where = f"{lname}/{kind}/{bodyrel} tags={tagset}: the tagged union {name.replace('_', ' ')}"
+            try:
+                r = pane.from_data(values.fresh(d), T2)
+            except Exception as e:  # noqa
+                core.add_violation(res, {'kind': 'embedded_dispatch', 'where': name, 'layout': lname, 'vkind': kind},
+                                   f"{where}: from_data({values.expr(d)[:60]}) raised {type(e).__name__}: {core.sstr(e, 80)}; tag {tag!r} selects {V.__name__}", cell, 6)
+                continue
+            if type(r) is not V or not (r == ref[1] or values.typed_eq(r, ref[1])):
+                core.add_violation(res, {'kind': 'embedded_dispatch', 'where': name, 'layout': lname, 'vkind': kind},
+                                   f"{where}: from_data({values.expr(d)[:60]}) returned {core.srepr(r, 60)}; tag {tag!r} selects {V.__name__} -> {core.srepr(ref[1], 50)}", cell, 6)
+                continue
+            if not judge_ser:
+                continue
+            try:
+                out = pane.into_data(r, T2)
+                back = pane.from_data(values.fresh(out), T2)
+                ok = (values.typed_eq(out, ref_data) or out == ref_data) and type(back) is V and (back == r or values.typed_eq(back, r))
+                got = f"into_data -> {core.srepr(out, 70)}, read back -> {core.srepr(back, 50)}"
+            except Exception as e:  # noqa
+                ok, got = False, f"{type(e).__name__}: {core.sstr(e, 90)}"
+            if not ok:
+                core.add_violation(res, {'kind': 'embedded_serialisation', 'where': name, 'layout': lname, 'vkind': kind},
+                                   f"{where}: {got}; the tagged type alone writes {core.srepr(ref_data, 70)}", cell, 6)
+        # an unknown tag stays an error that names the tag when a condition stands next to Tagged
+        dz = wrap(layout, 'x', 'zz', body)
+        for name, T2 in conds:
+            if dz is None:
+                continue
+            try:
+                r = pane.from_data(values.fresh(dz), T2)
+                problem = f"accepted ({core.srepr(r, 50)})"
+            except ConvertError as e:
+                problem = None if names_tag(core.sstr(e, 2000), tagset, layout) else f"ConvertError does not name the tag: {core.sstr(e, 120)!r}"
+            except Exception as e:  # noqa
+                problem = f"raised {type(e).__name__}"
+            res['evals'] += 1
+            if problem:
+                core.add_violation(res, {'kind': 'embedded_unknown_tag', 'where': name, 'layout': lname, 'vkind': kind},
+                                   f"{lname}/{kind}/{bodyrel} tags={tagset}: {name}: unknown tag in {values.expr(dz)[:60]}: {problem}",
+                                   dict(info, d=f"embed:{name}:" + values.expr(dz)), 6)
+        # the file writers and readers, given the tagged type itself
+        if not judge_ser:
+            continue
+        for fmt in ('json', 'yaml'):
+            if fmt == 'json':
+                import json as _json
+                try:
+                    if _json.loads(_json.dumps(ref_data)) != ref_data:
+                        continue      # JSON itself cannot carry this data (non-string keys of the external layout)
+                except Exception:  # noqa
+                    continue
+            try:
+                buf = _io.StringIO()
+                (pane.write_json if fmt == 'json' else pane.write_yaml)(ref[1], buf, ty=TU)
+                text = buf.getvalue()
+                back = (pane.from_json if fmt == 'json' else pane.from_yaml)(_io.StringIO(text), TU)
+                ok = type(back) is V and (back == ref[1] or values.typed_eq(back, ref[1]))
+                got = f"wrote {text.strip()[:70]!r}, read back {core.srepr(back, 50)}"
+            except Exception as e:  # noqa
+                ok, got = False, f"{type(e).__name__}: {core.sstr(e, 100)}"
+            res['evals'] += 1
+            res['transitions'] += 2
+            res['validated'] += 1
+            if not ok:
+                core.add_violation(res, {'kind': 'file_roundtrip', 'format': fmt, 'layout': lname, 'vkind': kind},
+                                   f"{lname}/{kind}/{bodyrel} tags={tagset}: write_{fmt}(x, ty=<tagged type>) then from_{fmt}: {got}; into_data(x, ty) is {core.srepr(ref_data, 60)}",
+                                   dict(info, d=f"embed:{fmt}:" + values.expr(d)), 6)
 
 
 def check_symmetry(pane, res, TU, x, tag, layout, kind, desc, cell, sig):
